@@ -155,7 +155,7 @@ def run_script_case(ctx, objdir, case, variants):
 
 # ------------------------------------------------------------------ replay-time filter options x UFTRACE_FUNCS
 def used_names(case):
-    ks = sorted({r[3] for t in case["tasks"] for r in t["recs"]})
+    ks = sorted({r[3] for t in case["tasks"] for r in t["recs"] if r[1] != c06.LOSTREC})
     return [case["names"][k] for k in ks]
 
 
@@ -510,7 +510,7 @@ def run(ctx):
     common_meta(ctx)
     objdir = setup(ctx)
     rng = ctx.rng
-    cases = c06.hand_cases()[:3]
+    cases = c06.hand_cases()
     n = ctx.n(40, 400)
     for k in range(n):
         cases.append(c06.gen_case(rng, "small" if k % 3 else "medium"))
